@@ -94,6 +94,28 @@ class TheoryPy:
         return _Poly(_Mat(val, len(rows), len(cols)), b, [_Var(i, by[i].bounds) for i in cols])
 
 
+def _theory_solve(self, objectives, reduced):
+    """TheoryPy.solve as an OPEN contract: the compiled solver's answer is not modelled (nothing is assumed about it beyond its
+    form) -- the call records what the Python glue handed over and returns, per objective, a solution that maps every
+    statement index to a fresh symbolic integer, a symbolic objective value and a symbolic status code.  Obligations are
+    stated on the recorded arguments and on how the glue reports those symbolic values back."""
+    import z3
+    from .sym import SInt, fresh_name
+    self.solve_calls = getattr(self, "solve_calls", [])
+    objs = [dict(o) for o in objectives]
+    self.solve_calls.append((objs, reduced))
+    TheoryPy.last_solve = (self, objs, reduced)
+    out = []
+    for q, _ in enumerate(objs):
+        sol = {s.variable: SInt(z3.Int(fresh_name(f"rs.sol{q}.{s.variable}"))) for s in self.statements}
+        out.append((sol, SInt(z3.Int(fresh_name(f"rs.ov{q}"))), SInt(z3.Int(fresh_name(f"rs.status{q}")))))
+    self.solve_answers = out
+    return out
+
+
+TheoryPy.solve = _theory_solve
+
+
 def py_optimized_bit_allocation_64(values):
     """ASSUMED contract A-rs2 of the compiled bit allocation, as an executable model (validated at run time against the
     extension on random inputs by rt.arrays:a_rs2_bit_allocation): reading the non-zero values left to right, an entry
